@@ -289,7 +289,7 @@ def _generate(rng, index, tier, extra):
     roll = rng.random()
     if roll < 0.75:
         path = rng.choice(paths)
-        seeds = corpus.accepted(path)
+        seeds = corpus.accepted_plus(path)
         bad = corpus.rejected(path)
         raw = rng.choice(bad) if bad and (not seeds or rng.random() < 0.25) else rng.choice(seeds)
         faults = wirefault.gen_faults(rng, raw)
